@@ -46,6 +46,8 @@ type hist struct {
 	bad     bool
 	ngc     int
 
+	diverged bool            // a recorded finding was recognised and adopted (C10: the memory twin legitimately differs from here on)
+	rm0      map[string]bool // cache for k6Vulnerable, valid for one judgement
 	unlisted map[string]bool // K6: artifact dropped from its subject's referrers list by a collection while it survived
 }
 
@@ -81,8 +83,21 @@ func (h *hist) k6Vulnerable(mm *vh.Man) bool {
 	if mm.Subject == "" || m.Tagged(mm.D) {
 		return false
 	}
-	// either the answer was already seen to have dropped it, or it hangs on an answer whose subject is not present
-	return h.unlisted[mm.D] || (m.Adopted[mm.D] && m.Mans[mm.Subject] == nil)
+	if h.unlisted[mm.D] {
+		return true // the answer was already seen to have dropped it
+	}
+	if !m.Adopted[mm.D] {
+		return false
+	}
+	// it hangs on its subject's referrers answer, which the collector keeps only if the subject is retained by other
+	// means than through these very artifacts (a subject that is missing, deleted, or only kept alive by its own
+	// referrers - the circular case)
+	if h.rm0 == nil {
+		h.rm0, _, _, _ = h.specX(func(x *vh.Man) bool {
+			return x.Subject != "" && !m.Tagged(x.D) && (m.Adopted[x.D] || h.unlisted[x.D])
+		})
+	}
+	return !h.rm0[mm.Subject]
 }
 
 // specX computes the sets with the manifests selected by exclude removed from the roots (used to recognise the
@@ -101,7 +116,7 @@ func (h *hist) specX(exclude func(mm *vh.Man) bool) (RM, keepRM, PM, keepPM map[
 	// currently present at the API: a collector walks the stored bytes); config and layers of an image are opaque
 	// content, even when those bytes happen to be a manifest body (MustKeep).  Non-strict follows every stored body in
 	// every role, which over-approximates what may be kept (used for Garbage, so that claim is never too strong).
-	compute := func(strict bool, root func(mm *vh.Man, in map[string]bool) bool) (map[string]bool, map[string]bool) {
+	compute := func(strict bool, root func(mm *vh.Man, in, keep map[string]bool) bool) (map[string]bool, map[string]bool) {
 		in, keep := map[string]bool{}, map[string]bool{}
 		expanded := map[string]bool{}
 		var walk func(d string, asManifest bool)
@@ -132,7 +147,7 @@ func (h *hist) specX(exclude func(mm *vh.Man) bool) (RM, keepRM, PM, keepPM map[
 				if in[d] && expanded[d] {
 					continue
 				}
-				if in[d] || root(mm, in) {
+				if in[d] || root(mm, in, keep) {
 					in[d] = true
 					walk(d, true)
 				}
@@ -141,16 +156,18 @@ func (h *hist) specX(exclude func(mm *vh.Man) bool) (RM, keepRM, PM, keepPM map[
 		}
 		return in, keep
 	}
-	RM, keepRM = compute(true, func(mm *vh.Man, in map[string]bool) bool {
+	RM, keepRM = compute(true, func(mm *vh.Man, in, _ map[string]bool) bool {
 		d := mm.D
 		return tagged[d] || young(d) ||
 			(!U && (mm.Subject == "" || !stored(mm.Subject) || in[mm.Subject] || (!W && !D))) ||
 			(mm.Subject != "" && in[mm.Subject])
 	})
-	PM, keepPM = compute(false, func(mm *vh.Man, in map[string]bool) bool {
+	PM, keepPM = compute(false, func(mm *vh.Man, in, keep map[string]bool) bool {
 		d := mm.D
+		// a collector that walks stored bytes treats every digest it reaches as a possible subject, whether or not it is
+		// still a manifest at the API: keep[subject] is enough for "possibly retained"
 		return tagged[d] || young(d) || !U ||
-			(mm.Subject != "" && (in[mm.Subject] || (!stored(mm.Subject) && !D) || (!W && !D) || h.touched[mm.Subject]))
+			(mm.Subject != "" && (in[mm.Subject] || keep[mm.Subject] || (!stored(mm.Subject) && !D) || (!W && !D) || h.touched[mm.Subject]))
 	})
 	for d := range m.Stored {
 		if young(d) {
@@ -266,7 +283,7 @@ func (h *hist) collect() {
 				if kf != "" {
 					sig = kf + ":" + sig
 				}
-				if h.focus == "C05" || kf != "" {
+				if h.focus == "C05" || h.focus == "C06" || kf != "" {
 					h.viol(sig, fmt.Sprintf("collection (%s) removed manifest %s [%s, subject %s] which the policy retains; answer now %s", h.polString(), mm.Name, h.role(mm, RM), w.NameOf(mm.Subject), got))
 				}
 				if kf != "" {
@@ -294,6 +311,7 @@ func (h *hist) collect() {
 	for _, d := range lost {
 		delete(m.Mans, d)
 		m.Adopted[d] = false
+		h.diverged = true
 	}
 	if knownLost {
 		// the content only a K1/K6-lost manifest referenced goes with it: judge content against the specification
@@ -314,8 +332,9 @@ func (h *hist) collect() {
 				sig := "mustkeep-content-lost"
 				if kf := h.knownLossOf(d, false); kf != "" {
 					sig = kf + ":" + sig // only K1-orphans / K6-vulnerable artifacts retain it
+					h.diverged = true
 				}
-				if h.focus == "C05" || strings.HasPrefix(sig, "K") {
+				if h.focus == "C05" || h.focus == "C06" || strings.HasPrefix(sig, "K") {
 					h.viol(sig, fmt.Sprintf("collection (%s) removed %s which is referenced by retained content or is younger than the grace period", h.polString(), w.NameOf(d)))
 				}
 				if !strings.HasPrefix(sig, "K") {
@@ -368,6 +387,7 @@ func (h *hist) collect() {
 			if m.Mans[mm.D] == nil {
 				m.Mans[mm.D] = mm // K5-style resurrection through the reload a directory collection performs
 				m.Adopted[mm.D] = true // it exists only as a child of the index that lists it
+				h.diverged = true
 				h.r.Count("resurrected_manifests_adopted", 1)
 			}
 		} else if m.Mans[mm.D] != nil && m.Stored[mm.D] != nil {
@@ -644,47 +664,13 @@ func (h *hist) pull(d, what string, seen map[string]bool) {
 // index.json) and that are not derivable from the manifests that do have one, through index children and listed
 // referrers.
 func (h *hist) orphans() map[string]bool {
-	m := h.w.Repos["r"]
-	reach := map[string]bool{}
-	var q []string
-	for d := range m.Mans {
-		if (!m.Adopted[d] || m.Tagged(d)) && m.Stored[d] != nil {
-			reach[d] = true
-			q = append(q, d)
-		}
-	}
-	for len(q) > 0 {
-		d := q[0]
-		q = q[1:]
-		p := m.Mans[d]
-		var next []string
-		if p != nil && p.Index {
-			next = append(next, p.Refs...)
-		}
-		for _, a := range m.Referrers(d) {
-			if !h.unlisted[a] {
-				next = append(next, a)
-			}
-		}
-		for _, c := range next {
-			if !reach[c] && m.Mans[c] != nil && m.Stored[c] != nil {
-				reach[c] = true
-				q = append(q, c)
-			}
-		}
-	}
-	out := map[string]bool{}
-	for d := range m.Mans {
-		if m.Adopted[d] && !reach[d] {
-			out[d] = true
-		}
-	}
-	return out
+	return h.w.Orphans(h.w.Repos["r"], h.unlisted)
 }
 
 // knownLoss recognises recorded findings K1 / K6 for retained content d (a manifest or a blob) that disappeared:
 // it is retained only through manifests that are K1-orphans or K6-vulnerable.
 func (h *hist) knownLossOf(d string, manifest bool) string {
+	h.rm0 = nil
 	orph := h.orphans()
 	pick := func(rm, keep map[string]bool) bool {
 		if manifest {
@@ -719,8 +705,21 @@ func (h *hist) step() {
 	switch k := rng.Intn(20); {
 	case k < 5:
 		b := u.Blobs[rng.Intn(len(u.Blobs))]
-		had := m.Stored[b.D] != nil
-		if rs := w.PushBlob("r", b); rs.Status == 201 && !had {
+		if rng.Intn(3) == 0 {
+			// through a session (POST without digest, then PUT): the other upload path
+			rs := w.Do(vh.Req{Method: "POST", URL: "/v2/r/blobs/uploads/"})
+			if loc := rs.H.Get("Location"); rs.Status == 202 && loc != "" {
+				f := w.Do(vh.Req{Method: "PUT", URL: loc + "&digest=" + b.D, Body: b.B})
+				w.T("blob(session) r/%s=%d", b.Name, f.Status)
+				if f.Status == 201 {
+					m.Stored[b.D] = b.B
+					h.young[b.D] = true
+				}
+			}
+			break
+		}
+		// an acknowledged upload is an upload: the content is young again even if the same bytes were stored before
+		if rs := w.PushBlob("r", b); rs.Status == 201 {
 			h.young[b.D] = true
 		}
 	case k < 12:
@@ -729,7 +728,6 @@ func (h *hist) step() {
 		if rng.Intn(3) == 0 {
 			tag = u.Tags[rng.Intn(len(u.Tags))]
 		}
-		had := m.Stored[mm.D] != nil
 		rs, ok := w.PutManifest("r", mm, tag)
 		if (rs.Status == 201) != ok || rs.Status >= 500 {
 			h.bad = true
@@ -737,9 +735,7 @@ func (h *hist) step() {
 			return
 		}
 		if rs.Status == 201 {
-			if !had {
-				h.young[mm.D] = true
-			}
+			h.young[mm.D] = true // a pushed manifest is young, also when the same bytes were stored before
 			if mm.Subject != "" {
 				h.touched[mm.Subject] = true
 			}
@@ -871,8 +867,12 @@ func starvation(r *vh.Run, i int) {
 	} else if rng.Intn(2) == 0 {
 		return // the memory store has no way to make a repository's collection fail from outside
 	}
+	// the pass is given the tick times as the ticker would: the previous tick just before the repositories were written,
+	// the current one anything from a moment to a long interval later
 	now := time.Now()
-	err := srv.VerifGCPass(now, now.Add(-time.Second))
+	cur := now.Add([]time.Duration{0, time.Second, 15 * time.Minute, 2 * time.Hour}[rng.Intn(4)])
+	wit["tick_interval"] = cur.Sub(now.Add(-time.Second)).String()
+	err := srv.VerifGCPass(cur, now.Add(-time.Second))
 	r.Count("starvation_trials", 1)
 	starved := []string{}
 	for _, rp := range healthy {
